@@ -256,7 +256,11 @@ def _h2c_native_args(rng):
     req = h11.Request(method="GET", target=b"/p", headers=hs)
     from hypercorn.protocol.h11 import H2CProtocolRequiredError
 
-    return {"self": H2CProtocolRequiredError.__new__(H2CProtocolRequiredError), "data": b"xyz", "request": req}
+    # the bytes that follow the upgrade request: anything, in particular what a client that does not
+    # wait for the 101 sends next (the HTTP/2 client preface and its first frames)
+    data = rng.choice([b"", b"xyz", b"PRI * HTTP/2.0\r\n\r\nSM\r\n\r\n", b"PRI * HTTP/2.0\r\n\r\nSM\r\n\r\n\x00\x00\x00\x04\x00\x00\x00\x00\x00",
+                       b"PRI * HTTP/2.0\r\n", b"GET / HTTP/1.1\r\n\r\n", b"\x00\x00\x00\x04\x00\x00\x00\x00\x00"])
+    return {"self": H2CProtocolRequiredError.__new__(H2CProtocolRequiredError), "data": data, "request": req}
 
 
 def _h2c_native_oracle(args, result, exc=None):
@@ -338,7 +342,9 @@ fn(PW + ".handle", params={"event": _ev.IO_EVENTS}, task="reader", model_opts=PW
        # that has been given exactly the bytes h11 had not consumed, once, and only if there are any
        ("C13.handover.h2", "implies(call_index('H2Port.initiate') >= 0, isinstance(self.protocol, H2Protocol) and self.protocol.g_initiated and not same(self.protocol, old(self.protocol)))", "C13"),
        ("C13.no-switch-keeps", "implies(call_index('H2Port.initiate') < 0, same(self.protocol, old(self.protocol)))", "C13"),
-       ("C13.handover.event-first", "call_index('Port.handle') == 0 and same(call_args('Port.handle')[0], old(self.protocol)) and same(call_args('Port.handle')[1], event)", "C13"),
+       # (C06 / C04: this includes the empty read that stands for the peer's EOF -- h11 learns that the
+       # client is gone, and with it whether the connection may be reused, from nothing else)
+       ("C13.handover.event-first", "call_index('Port.handle') == 0 and same(call_args('Port.handle')[0], old(self.protocol)) and same(call_args('Port.handle')[1], event)", "C13,C06,C04"),
        # ... the bytes: everything h11 had buffered and not consumed travels in the exception (they
        # may have arrived in earlier reads than the one that completed the preface / the upgrade
        # request), and that -- not the read that triggered the switch -- is what HTTP/2 is given
